@@ -44,7 +44,7 @@ def task(name: str, item: Any) -> dict[str, Any]:
 def run(tier: str, seed: int, known: list[dict[str, Any]]) -> dict[str, Any]:
     items: list[tuple[str, Any]] = [p for i, p in enumerate(programs(tier, seed)) if tier != "quick" or i % 2 == 0]
     items += list(f6_raw(seed, 200 if tier == "quick" else 4000))
-    r = trun.run_family("C09", "C09.E3", task, items, known, None, bounds="F6 inputs: map keys and positions vs the text")
+    r = trun.run_family("C09", "C09.E3", task, items, known, pC02.classify, bounds="F6 inputs: map keys and positions vs the text")
     r["engine"] = "V"
     r["headline"] = f"{r['programs']} concrete inputs: every map entry is keyed by an input offset and points at the first " \
                     f"character of a statement line (model validation), {len(r['harness_errors'])} failures"
